@@ -101,3 +101,9 @@ Proof. repeat split; reflexivity. Qed.
 From SymfcG Require Import ShapesBasis SkelBasis ShapesCoset SkelEig ShapesAuxEig SkelIdx.
 Theorem c11_recorded_sources4_in_force : ShapesBasis_as_recorded = true /\ SkelBasis_as_recorded = true /\ ShapesCoset_as_recorded = true /\ SkelEig_as_recorded = true /\ ShapesAuxEig_as_recorded = true /\ SkelIdx_as_recorded = true.
 Proof. repeat split; reflexivity. Qed.
+
+(** The Symfc facade (the entry point through which every returned force constant and basis set of this property is obtained) is the
+    recorded source: whole-function and skeleton match, regenerated on every run. *)
+From SymfcG Require Import ShapesApi SkelApi.
+Theorem c11_facade_in_force : ShapesApi_as_recorded = true /\ SkelApi_as_recorded = true.
+Proof. repeat split; reflexivity. Qed.
